@@ -217,6 +217,28 @@ MANIFEST["note"] += ("; node model: one node only (no split, no second node), by
                      "beyond lkl not compared")
 
 
+# writer of the chain of node records (Model/KvChain.lean): the node clause for ANY number of nodes - `_lx_addkv` routing,
+# `_lx_split_addkv` (new node in front / behind, split at the pivot), removal of an emptied node
+THEOREMS += ["IwModel.C06." + t for t in (
+    "chaininv_empty", "split_keeps_nodeinv", "chaininv_put", "chaininv_del", "chaininv_history",
+    "chain_history_nodeinv", "chain_history_order", "chain_history_audit")]
+MODELLED_FUNCS['src/kv/iwkv.c'] += ['_lx_roll_forward', '_lx_put_lw']
+MANIFEST["text"] += ("; and on a writer model of the whole level-0 CHAIN of node records (IwModel.KvChain: `_lx_addkv` routing - overwrite, add to the "
+                     "node found, add to its upper neighbour, new node in front of / behind a full node - and `_lx_split_addkv`: block of the new node "
+                     "sized by sz, records pi[17..32) moved with raw keys and no sync in between, their slots reset with zidx = pi[17], new record to "
+                     "the upper or lower half, caches of both halves; node removal on the last delete): every node satisfies NodeInv after every "
+                     "operation of every history with any number of keys (chain_history_nodeinv, core: split_keeps_nodeinv), the nodes are non-empty, "
+                     "hold <= 32 records and are in strictly descending key order across nodes (chain_history_order), every node passes the node "
+                     "part of the audit (chain_history_audit); after EVERY operation of generated histories with 40-400+ keys (splits at every "
+                     "insert position, repeated splits of one key range, nodes emptied at head / middle / tail, keys longer than 115 bytes sharing "
+                     "their prefix across the split point, compound keys) every node of the chain in the file is compared with the model node at "
+                     "the same chain position: pnum, pi[0..pnum), lkl, cached bytes, FULL_LKEY bit, data block")
+MANIFEST["note"] += ("; chain model: lookup walks level 0 only (levels / links / addresses / page slots: link model), byte-string comparator only; "
+                     "refinement of the chain contents to the ordered-map spec (values) is not proved on the byte-level model (C01 proves it on the "
+                     "abstract node model; the stream compares contents with the reference map), the audit theorem is per node (cross-node key "
+                     "order is proved as chain_history_order, not yet through keyErrs)")
+
+
 def gen_link_history(r, nbulk, nwaves, cursors=False):
     """one or two plain-key databases; every put/del is followed by `nodes` and `image`.  With `cursors`, some waves
     are a cursor walking back from the end that deletes record after record (`cur 0 del`, whole nodes go through
@@ -1391,7 +1413,9 @@ def run(ctx):
         if ctx.tier == "quick":
             explore_block(ctx, h, drv, 40, 150, "bq")
             explore_node(ctx, h, drv, 27, 100, "nq")
+            explore_chain(ctx, h, drv, [40, 70, 130, 400], 120, "cq")
         else:
+            explore_chain(ctx, h, drv, [40, 45, 64, 70, 100, 130, 200, 300, 400, 400, 500, 96, 160, 33, 250, 350], 300, "ct")
             explore_node(ctx, h, drv, 270, 150, "nt")
             explore_node(ctx, h, drv, 18, 1200, "ntl")
             explore_block(ctx, h, drv, 400, 200, "bt")
@@ -1402,6 +1426,13 @@ def run(ctx):
                             "and the next one is long / short / shares the cached bytes, overwrite of the first key with a moving record, insert in front of "
                             "the first key), puts, deletes, cursor sets and cursor deletes: the Lean node writer model (IwModel.KvNode) must equal the node "
                             "record in the file (pnum, pi, lkl, cached bytes, FULL_LKEY bit) and its data block after EVERY op")
+    if drv:
+        ctx.cov["rule"] += ("; chain stream: one database with 40-400+ keys `prefix ++ 3-byte number ++ tail` (short, > 115 bytes with a common "
+                            "115-byte start, number straddling byte 115, mixed lengths, compound), base keys loaded in monotone order (full nodes of 32 "
+                            "at known chain positions), directed inserts of gap keys at position 0 / 1..16 / 17 / 18..31 / 32 of a chosen full node, an "
+                            "oversize put into a full node, runs of gap keys splitting one key range repeatedly, range deletes emptying nodes at head / "
+                            "middle / tail, overwrites with growing values, cursor sets / deletes: the Lean chain writer model (IwModel.KvChain) must equal "
+                            "EVERY node record of the level-0 chain in the file and its data block, by chain position, after EVERY op")
     if (ctx.proof_broken or ctx.corr_broken) and not ctx.violations:
         explore(ctx, h, drv, 80, 250, "search")
 
